@@ -422,13 +422,15 @@ def train_multi_agent_off_policy(
                 for score in pop_episode_scores
                 if score
             ]
-            if pop_episode_scores:
+            if pop_mean_scores:
                 mean_scores = np.stack(pop_mean_scores, axis=0)
                 mean_score_dict = {
                     "train/mean_score/" + agent: np.mean(mean_scores[:, idx], axis=-1)
                     for idx, agent in enumerate(agent_ids)
                 }
             else:
+                # No member of the population completed an episode in this generation
+                mean_scores = np.full((len(pop), len(agent_ids)), np.nan)
                 mean_score_dict = {
                     "train/mean_score/" + agent: np.nan
                     for idx, agent in enumerate(agent_ids)
@@ -535,7 +537,14 @@ def train_multi_agent_off_policy(
                     [np.mean(agent.fitness[-5:], axis=0) for agent in pop]
                 )
                 avg_score_arr = np.array(
-                    [np.mean(agent.scores[-10:], axis=0) for agent in pop]
+                    [
+                        (
+                            np.mean(agent.scores[-10:], axis=0)
+                            if len(agent.scores) > 0
+                            else np.full(len(agent_ids), np.nan)
+                        )
+                        for agent in pop
+                    ]
                 )
                 fitness = {
                     agent: fitness_arr[:, idx] for idx, agent in enumerate(agent_ids)
